@@ -520,9 +520,13 @@ func Drive(o Options) int {
 		"wall_s":      time.Since(t0).Seconds(),
 		"violations":  len(violations),
 	}
-	os.MkdirAll(filepath.Join(VerifDir(), "evidence"), 0755)
+	evDir := filepath.Join(VerifDir(), "evidence")
+	if os.Getenv("VERIF_NOEVIDENCE") != "" { // runs against scratch copies (mutants, seeded changes) must not overwrite the evidence of the real tree
+		evDir = filepath.Join(VerifDir(), ".build", "evidence-scratch")
+	}
+	os.MkdirAll(evDir, 0755)
 	b, _ := json.MarshalIndent(ev, "", " ")
-	if err := os.WriteFile(filepath.Join(VerifDir(), "evidence", o.Prop+".json"), b, 0644); err != nil {
+	if err := os.WriteFile(filepath.Join(evDir, o.Prop+".json"), b, 0644); err != nil {
 		fmt.Printf("BROKEN property=%s cannot write evidence: %v\n", o.Prop, err)
 		return 2
 	}
